@@ -319,8 +319,31 @@ def report_known(ctx, finding):
     log("KNOWN-FINDING: property=%s %s" % (ctx.prop, finding.get("what", key)))
 
 
+def _sanitize_coverage(cov):
+    """Keep the evidence schema-valid whatever a check put into the well-known keys."""
+    cov = dict(cov)
+    if "exhaustive" in cov and not isinstance(cov["exhaustive"], bool):
+        cov["exhaustive_note"] = cov["exhaustive"]
+        cov["exhaustive"] = False
+    for k in ("evaluations", "distinct_nontrivial", "states", "transitions", "traces_validated_against_impl",
+              "obligations", "discharged", "programs", "disagreements_checked"):
+        if k in cov and not isinstance(cov[k], int):
+            try:
+                cov[k] = int(cov[k])
+            except (TypeError, ValueError):
+                cov[k + "_note"] = cov.pop(k)
+    if "samples" in cov and not isinstance(cov["samples"], list):
+        cov["samples"] = [cov["samples"]]
+    if "trusted_base" in cov and not isinstance(cov["trusted_base"], list):
+        cov["trusted_base"] = [str(cov["trusted_base"])]
+    if "rule" in cov and not isinstance(cov["rule"], str):
+        cov["rule"] = json.dumps(cov["rule"])
+    return cov
+
+
 def write_evidence(ctx, coverage, assumptions=None, level="proof", extra=None):
     os.makedirs(EVID, exist_ok=True)
+    coverage = _sanitize_coverage(coverage)
     ev = {
         "property_id": ctx.prop,
         "tier": ctx.tier,
